@@ -4,7 +4,7 @@ import itertools
 from collections import Counter
 from hypothesis import strategies as st
 
-from ..core import Clause, Violation, guard, ulp
+from ..core import Clause, Enum, Violation, guard, ulp
 from .. import oracles as O
 from ..harness import seed_all, Patched
 from .c08 import SeededRS
@@ -12,7 +12,7 @@ from .c08 import SeededRS
 PROPERTY = "C12"
 LEVEL = "exploration"
 RULE = ("parameter counts 1..6 (Halton ..12), boxes with lower bound in +-[0,1e6] and width 1e-2..1e9 (>= 1e-9*|bound| "
-        "so that strata/levels are distinguishable), N=1..40 (Halton ..200 plus base^k and base^k+-1 up to 5200; grid k=2..6 with k^d<=4096), seeds through "
+        "so that strata/levels are distinguishable), N=1..40 (Halton ..200 plus base^k and base^k+-1 up to 5200; grid k=2..6 (k..20 for d<=2) with k^d<=4096), seeds through "
         "a RandomState shim; LHS: sorted column i-th value in stratum i; Halton: point i coordinate j == lb + "
         "radical_inverse(i, prime_j)*width with exact Fractions; Uniform: exact product of k levels; Random: N rows "
         "in bounds. Non-trivial = N>=3 and d>=2; for Halton additionally an index >= base^2 of the largest base")
@@ -38,7 +38,7 @@ def cases(draw, kind):
         N = draw(st.one_of(st.integers(1, 200), st.integers(1, 200), st.sampled_from(pw)))
     elif kind == "uniform":
         d = draw(st.integers(1, 5))
-        kmax = max(2, min(6, int(4096 ** (1.0 / d))))
+        kmax = max(2, min(20 if d <= 2 else 6, int(4096 ** (1.0 / d))))
         N = draw(st.integers(2, kmax))
     else:
         d = draw(st.integers(1, 6))
@@ -121,9 +121,20 @@ def check_sampler(case):
     return {"nt": nt, "classes": ["d%d" % d, "N>=3" if N >= 3 else "N<3"]}
 
 
+def halton_boundary_items(tier):
+    """every N = base^k, base^k +- 1 (<= 5200) for the twelve bases in use, with all twelve parameters at once"""
+    ns = sorted({b ** e + o for b in O.primes(12) for e in range(1, 14) for o in (-1, 0, 1) if 1 <= b ** e + o <= 5200})
+    for n in ns:
+        yield {"kind": "halton", "boxes": [[0.0, 1.0]] * 11 + [[-3.0, 5.0]], "N": n, "seed": 1}
+
+
 CLAUSES = [
     Clause("lhs", cases("lhs"), check_sampler, quick=800, thorough=8000, quick_shards=2),
     Clause("halton", cases("halton"), check_sampler, quick=600, thorough=6000, quick_shards=2),
     Clause("uniform", cases("uniform"), check_sampler, quick=500, thorough=5000, quick_shards=2),
     Clause("random", cases("random"), check_sampler, quick=800, thorough=8000),
+]
+ENUMS = [
+    Enum("halton-boundaries", halton_boundary_items, check_sampler, tiers=("quick", "thorough"), chunk=12,
+         exhaustive_note="all sample counts base^k and base^k +- 1 up to 5200 for the first twelve prime bases, 12 parameters"),
 ]
